@@ -872,3 +872,13 @@ def m_index_mut_range(c):
     if 'RangeTo' in c.canon:
         return m_index_rangeto(c)
     return m_index_range(c)
+
+
+@pattern(r'^<&?(str|String|&str|std::string::String) as Into<(String|std::string::String)>>::into$|^<(String|std::string::String) as From<&(mut )?str>>::from$')
+def m_str_into_string(c):
+    return deref(c.st, c.args[0])
+
+
+@model('String::new', 'std::string::String::new')
+def m_string_new(c):
+    return Str(text='')
